@@ -42,7 +42,68 @@ def run(ctx: Ctx) -> Collector:
     _readers(ctx, c)
     _entity_model(ctx, c)
     _type_readers(ctx, c)
+    _wrap(ctx, c)
     return c
+
+
+def _wrap(ctx: Ctx, c: Collector) -> None:
+    """`wrap_set` turns what a model description lists into a set of the algebra: None (the key is absent) and an OutSet (a default
+    that parse_attrs computed itself -- "every attribute except ..." for any_inputs models) pass through unchanged, anything else
+    becomes the frozenset of its elements.  parse_attrs feeds its own defaults through it, so a wrap_set that does not know OutSet
+    breaks exactly the models whose classification is a co-finite set."""
+    qn = "mosaik.in_or_out_set.wrap_set"
+    fi = ctx.prog.functions.get(qn)
+    if fi is None:
+        raise AnalysisError(f"R22: {qn} not found")
+    s = ctx.summ(qn)
+    x = T.var(fi.params[0])
+    ret = folded_return(s)
+    OUT = "mosaik.in_or_out_set.OutSet"
+    pr: List[str] = []
+    unknown = None
+    for label, is_none, is_out in (("None", True, False), ("an OutSet", False, True), ("a list of names", False, False)):
+        def truthy(t, is_none=is_none, is_out=is_out):
+            t = T.strip(t)
+            if t == ("cmp", "is", x, T.NONE):
+                return is_none
+            if t == ("cmp", "isnot", x, T.NONE):
+                return not is_none
+            if t[0] == "call" and t[1] == T.glob("isinstance") and len(t[2]) == 2 and t[2][0] == x:
+                cls = T.strip(t[2][1])
+                names = [y[1] for y in T.subterms((cls,)) if isinstance(y, tuple) and y and y[0] == "glob"]
+                if any(n == OUT or n.endswith(".OutSet") for n in names):
+                    return is_out
+                if names and all(n in ("frozenset", "set", "list", "tuple") for n in names):
+                    return (not is_none) and (not is_out)
+                return None
+            if t == x:
+                return None if is_out else (not is_none)      # truth of an OutSet is not decided here
+            return None
+        try:
+            v = T.strip(boolfn.resolve_phi(ret, {}, truthy)) if ret is not None else T.NONE
+        except boolfn.NotBoolean as ex:
+            unknown = f"condition not understood: {ex}"
+            break
+        if v[0] in ("phi", "ifexp"):
+            unknown = f"value for {label} not decided: {T.show(v)[:80]}"
+            break
+        if is_none and v not in (x, T.NONE):
+            pr.append(f"for an absent key (None) the result is {T.show(v)[:50]} instead of None: the defaults of parse_attrs no longer apply")
+        if is_out and v != x:
+            pr.append(f"an OutSet (a co-finite default that parse_attrs computed itself) is turned into {T.show(v)[:50]} instead of being passed through: "
+                      "models with any_inputs and no explicit trigger / non-trigger list cannot be classified")
+        if not is_none and not is_out:
+            arg = T.strip(v[2][0]) if v[0] == "call" and v[1] == T.glob("frozenset") and len(v[2]) == 1 else None
+            same_elems = arg is not None and (arg == x or (arg[0] == "bag" and len(arg[1]) == 1 and len(arg[1][0][3]) == 1 and T.strip(arg[1][0][3][0][2]) == x
+                                                          and arg[1][0][1] == arg[1][0][3][0][1] and not arg[1][0][2]))
+            if not same_elems:
+                pr.append(f"a list of attribute names becomes {T.show(v)[:60]} instead of the frozenset of its elements")
+    if pr:
+        c.bad("wrap", qn, "None and OutSet pass through, a list becomes its frozenset", "; ".join(pr), fi.loc)
+    elif unknown:
+        c.unk("wrap", qn, "None and OutSet pass through, a list becomes its frozenset", unknown, fi.loc)
+    else:
+        c.ok("wrap", qn, "None and OutSet pass through, a list becomes its frozenset", "3 cases decided", fi.loc)
 
 
 def _type_readers(ctx: Ctx, c: Collector) -> None:
